@@ -6,7 +6,7 @@ Local Open Scope Z_scope.
 
 Lemma step_lock_inv : forall s t s', step s (LLock t) = Some s' -> st_lock s t = Some s'.
 Proof.
-  unfold step. intros. simpl in H. destruct (fin s); try discriminate. destruct (blocked s t); try discriminate.
+  unfold step. intros. simpl in H. destruct (fin s || mph_eqb (omain s) MAfter); try discriminate. destruct (blocked s t); try discriminate.
   destruct (kdue s t); try discriminate. destruct (holds s t); simpl in H; try discriminate. exact H.
 Qed.
 
